@@ -45,6 +45,14 @@ def _make_aln(mt, names, seqs, kind):
     return make_aligned_seqs(dict(zip(names, seqs)), moltype=mt, array_align=(kind == "array"))
 
 
+def _prev_seqs(seqs):
+    """the alignment a reused calculator / app saw before: same names and lengths, an identical pair (the first two
+    or the last two sequences, in turn by content)"""
+    if sum(map(len, seqs)) % 2 == 0 or len(seqs) < 3:
+        return [seqs[0], seqs[0]] + list(seqs[2:])
+    return list(seqs[:-2]) + [seqs[-1], seqs[-1]]
+
+
 def run_entry(entry, calc, mt, names, seqs, kind):
     """-> ("matrix", names, {(a,b): float}) | ("none",) | ("arith", msg) | ("exc", type name, msg)"""
     from cogent3.evolve.fast_distance import get_distance_calculator
@@ -58,6 +66,28 @@ def run_entry(entry, calc, mt, names, seqs, kind):
                 c = get_distance_calculator(name, moltype=aln.moltype, alignment=aln, **kw)
                 c.run(show_progress=False)
                 res = c.get_pairwise_distances()
+            elif entry == "calc_reuse":
+                # one calculator object over a history of alignments: first an alignment of the same names holding an
+                # identical pair, then the alignment under test; the answer must depend on the last one only
+                kw = {"use_tk_adjustment": False} if calc == "logdet_notk" else {}
+                prev = _make_aln(mt, names, _prev_seqs(seqs), kind)
+                c = get_distance_calculator(name, moltype=aln.moltype, alignment=prev, **kw)
+                try:
+                    c.run(show_progress=False)
+                except ArithmeticError:
+                    pass
+                c.run(alignment=aln, show_progress=False)
+                res = c.get_pairwise_distances()
+            elif entry == "app_reuse":
+                from cogent3.app.dist import fast_slow_dist
+                app = fast_slow_dist(fast_calc=name, moltype=mt)
+                app(_make_aln(mt, names, _prev_seqs(seqs), kind))
+                res = app(aln)
+                if type(res).__name__ == "NotCompleted":
+                    msg = str(getattr(res, "message", res))
+                    if "ArithmeticError" in msg:
+                        return ("arith", msg)
+                    return ("exc", "NotCompleted", msg[:300])
             elif entry == "dm":
                 res = aln.distance_matrix(calc=name)
             elif entry == "dm_drop":
@@ -112,7 +142,7 @@ def _zero_diff_partner(names, seqs, mt, x):
 
 def contract_estimators(case):
     entry, calc, mt, names, seqs, kind = case
-    if calc == "logdet_notk" and entry != "calc":
+    if calc == "logdet_notk" and entry not in ("calc", "calc_reuse"):
         return ("skip",)                       # only the calculator object exposes use_tk_adjustment
     if calc in ("tn93", "jc69") and mt == "protein":
         return ("skip",)
@@ -354,6 +384,23 @@ def gen_sample(tier, seed):
         for calc in calcs:
             for entry in ENTRIES:
                 yield [entry, calc, mt, names, seqs, kind]
+
+
+def gen_reuse(tier, seed):
+    """histories: the alignments of gen_triples / gen_sample asked of a calculator object (every case) or app (every
+    third case) that has already been run on another alignment of the same names with an identical pair"""
+    thorough = tier == "thorough"
+    t = 0
+    for src, keep in ((gen_triples, 8 if thorough else 3), (gen_sample, 1)):
+        for case in src(tier, seed):
+            if case[0] != "calc":
+                continue
+            t += 1
+            if t % keep:
+                continue
+            yield ["calc_reuse"] + case[1:]
+            if (t // keep) % 3 == 0 and case[1] != "logdet_notk":
+                yield ["app_reuse"] + case[1:]
 
 
 # ================================================================================================ trees
@@ -618,6 +665,14 @@ BOUNDED = {
         "bound": "seeded sample beyond the frontier: 250 (thorough 2500) alignments of 2..6 sequences, length 6..60, dna / rna "
                  "(7 estimators) and protein (pdist, hamming), evolved from one ancestor with duplicates, sequences differing "
                  "only in non-canonical columns and unrelated (saturated) sequences; both alignment classes; 4 entry points",
+        "rule": _EST_RULE, "shards": 16,
+    },
+    "estimators_reuse": {
+        "gen": gen_reuse, "contract": contract_estimators, "functions": _EST_FUNCS,
+        "bound": "histories of length 2 on one calculator object / one fast_slow_dist app: first an alignment of the same "
+                 "names in which two sequences are identical, then the alignment under test (every third (thorough eighth) "
+                 "alignment of the triples enumeration and every alignment of the sample); the calculator for each, the app "
+                 "for every third; compared with the formulas exactly as a single run",
         "rule": _EST_RULE, "shards": 16,
     },
     "nj_additive": {
